@@ -171,6 +171,31 @@ def winVerdict (id : String) (c : WinCase) (obs : List (Nat × WinObs)) : String
   let s := windowBoundOK c.cfg c.reqs obs && retryOK c.reqs obs c.retries && rejectOK obs
   verdict id (obs == m) s (winClass c) (s!"{m.length} " ++ " ".intercalate (m.map showWinObs))
 
+/-! ### sliding-window middleware over scripted counts -/
+
+structure ScrCase where
+  cfg : WinCfg
+  /-- per request: counts and window start the store reported, the instant of the request -/
+  rows : List (Nat × Nat × Nat × Nat)
+
+def pScrCase : P ScrCase := do
+  let limit ← nat
+  let W ← nat
+  let headers ← bool
+  let enforce ← bool
+  let hasCallback ← bool
+  let rows ← list (do let c ← nat; let p ← nat; let ws ← nat; let now ← nat; pure (c, p, ws, now))
+  pure { cfg := { limit, W, headers, enforce, hasCallback, atomic := true }, rows }
+
+def scrVerdict (id : String) (c : ScrCase) (obs : List (Nat × WinObs)) : String :=
+  let m := c.rows.zipIdx.map fun (r, i) =>
+    (i, winAnswer c.cfg (winLimitText c.cfg) (decide_ c.cfg.limit c.cfg.W { cur := r.1, prev := r.2.1, ws := r.2.2.1 } r.2.2.2))
+  let s := rejectOK obs && (c.rows.zipIdx.all fun (r, i) =>
+    match obs.lookup i with
+    | some o => scriptedRetryOK c.cfg.limit c.cfg.W r.1 r.2.1 r.2.2.1 r.2.2.2 o
+    | none => false)
+  verdict id (obs == m) s "-" (s!"{m.length} " ++ " ".intercalate (m.map showWinObs))
+
 /-! ### dispatch -/
 
 def pObs {α} (p : P α) : P (Option α) := do
@@ -196,6 +221,11 @@ def step (line : String) : String :=
     | "M" :: rest =>
       match runP pMwCase rest, runP (pObs (list (pair pOut pMwObs))) obs with
       | some c, some (some o) => mwVerdict id c o
+      | some _, some none => verdict id false false "-" "P"
+      | _, _ => s!"{id} bad-case"
+    | "V" :: rest =>
+      match runP pScrCase rest, runP (pObs (list pWinObs)) obs with
+      | some c, some (some o) => scrVerdict id c o
       | some _, some none => verdict id false false "-" "P"
       | _, _ => s!"{id} bad-case"
     | "W" :: rest =>
